@@ -309,6 +309,11 @@ def fc_truth(draw, keys):
     return {key: draw(st.booleans()) for key in keys}
 
 
+# what may surround an entered text: the entered input is the text as it was entered
+PADDINGS = ["", "", " ", "  ", "\t", "\n", "\r\n", "\u00a0", "\x1f", "\u2003"]
+# entered texts that are no qualifier of any generated pool; several are meaningful to Python's formatting machinery
+FOREIGN_TEXTS = ["Q", "zz", "a", " A", "100%", "%s", "%(A1)s", "5 % Rabatt", "{0}", "{", "}", "{A1}", "\\1", "$1", "'", '"',
+                 "A1'", "\n", " ", "Z\x00", "Ä1", "ẞ", "Z" * 300, "0", "None", "A1, A2"]  # fmt: skip
 HINT_TEXTS = [
     "Hinweis {key}",
     "Hinweis {key}",
